@@ -331,3 +331,24 @@ contract(US + "_clustering", params={"self": "obj:UnsupervisedOPF", "n_neighbour
                 LoopSpec("for", var="i", inv=un_init_inv),
                 LoopSpec("while", inv=un_forest),
                 LoopSpec("for", var="k", inv=un_inner)])
+
+
+# ------------------------------------------------------------------ UnsupervisedOPF.propagate_labels
+
+contract(US + "propagate_labels", params={"self": "obj:UnsupervisedOPF"}, props=["C13"],
+         requires=lambda v: [("roots_valid", forall(0, length(v.self.subgraph.nodes), lambda x: conj(
+             le(0, v.self.subgraph.nodes[x].root), lt(v.self.subgraph.nodes[x].root, length(v.self.subgraph.nodes)),
+             ge(v.self.subgraph.nodes[x].label, 0))))],
+         ensures=lambda v, old, result: [("root_label", forall(0, length(v.self.subgraph.nodes), lambda x: eq(
+             v.self.subgraph.nodes[x].predicted_label, v.self.subgraph.nodes[v.self.subgraph.nodes[x].root].label)))],
+         modifies=["self.subgraph.nodes.predicted_label"],
+         loops=[LoopSpec("for", var="i", inv=lambda v, old, le_: [
+             ("frame", forall(0, length(v.self.subgraph.nodes), lambda x: conj(
+                 eq(v.self.subgraph.nodes[x].root, old.self.subgraph.nodes[x].root),
+                 eq(v.self.subgraph.nodes[x].label, old.self.subgraph.nodes[x].label),
+                 le(0, v.self.subgraph.nodes[x].root), lt(v.self.subgraph.nodes[x].root, length(v.self.subgraph.nodes)),
+                 ge(v.self.subgraph.nodes[x].label, 0)))),
+             ("n", eq(length(v.self.subgraph.nodes), length(old.self.subgraph.nodes))),
+             ("done", forall(0, v.i, lambda x: eq(
+                 v.self.subgraph.nodes[x].predicted_label,
+                 v.self.subgraph.nodes[v.self.subgraph.nodes[x].root].label)))])])
